@@ -1,6 +1,7 @@
 package mon
 
 import (
+	"encoding/json"
 	"fmt"
 	"path/filepath"
 	"strings"
@@ -134,6 +135,78 @@ func c16ManyCases(quick bool) []c16ManyCase {
 				}
 			}
 			out = append(out, c16ManyCase{N: nn, Limit: 24 + 8*ni, Args: m.args, Raw: m.raw, Stdin: stdin, Agg: agg})
+		}
+	}
+	return out
+}
+
+// c16.argtext: the text given to --argjson / --jsonargs is "parsed values": exactly one JSON value, surrounded by
+// any white space. Such a text binds that value; any other text (no value, more than one, malformed) binds nothing:
+// the command fails with a diagnostic and prints nothing.
+
+type c16ArgTextCase struct {
+	Text  string
+	Valid bool
+	Flag  string // argjson, jsonargs, jsonargs-second
+}
+
+var kC16ArgText = run.NewKind("c16.argtext", func(c *run.Ctx, t c16ArgTextCase) *run.Fail {
+	var argv []string
+	switch t.Flag {
+	case "argjson":
+		argv = []string{"-nc", "--argjson", "a", t.Text, "[$a, $ARGS.named.a]"}
+	case "jsonargs":
+		argv = []string{"-nc", "$ARGS.positional", "--jsonargs", t.Text}
+	default:
+		argv = []string{"-nc", "$ARGS.positional", "--jsonargs", "0", t.Text, "2"}
+	}
+	c.Count("process_runs", 1)
+	r := run.CLI(run.CLIOpt{Args: argv, NoStdin: true, Timeout: 20 * time.Second})
+	if c16Broken(c, r) {
+		return nil
+	}
+	desc := fmt.Sprintf("gojq %q", argv)
+	if !t.Valid {
+		if r.Code == 0 || len(strings.TrimSpace(string(r.Stdout))) > 0 || len(r.Stderr) == 0 {
+			return run.Failf("%s: the text %q is not one JSON value, but the command exits %d, prints %q, stderr %q", desc, t.Text, r.Code, run.Clip(string(r.Stdout)), run.Clip(string(r.Stderr)))
+		}
+		c.Nontrivial(t.Flag + t.Text)
+		return nil
+	}
+	want, err := c16Decode1(t.Text)
+	if err != nil {
+		return run.Failf("bad case: %v", err)
+	}
+	var exp any
+	switch t.Flag {
+	case "argjson":
+		exp = []any{want, want}
+	case "jsonargs":
+		exp = []any{want}
+	default:
+		exp = []any{json.Number("0"), want, json.Number("2")}
+	}
+	got, gerr := c16Decode1(string(r.Stdout))
+	if r.Code != 0 || gerr != nil || run.Canon(got) != run.Canon(exp) {
+		return run.Failf("%s: exit %d, printed %q (stderr %q), expected %s", desc, r.Code, run.Clip(string(r.Stdout)), run.Clip(string(r.Stderr)), run.Canon(exp))
+	}
+	c.Nontrivial(t.Flag + t.Text)
+	return nil
+})
+
+func c16ArgTextCases() []c16ArgTextCase {
+	invalid := []string{"", " ", "\n", "\t \r\n", "1 2", "1 x", "[1] [2]", "{}{}", "nul", "1,", "[1,]", "{\"a\":}", "\"abc", "1 2 3", "null null", "[] x", "// c", "# c", "1 #c", "'a'", "tru", "-", "+1", "01", "1.", ".5", "\x00", "1\x00", "NaN", "[1 2]", "{\"a\" 1}", "\"\\x\"", "]", "1 ]", "1}"}
+	valid := []string{"1", " 1", "1 ", "\n[1,2]\n", "\t{\"a\":[null]}\r\n", "null", "\"a b\"", " \"\" ", "-0", "1e1000", "100000000000000000000000000001", "[]", "{}", "false", " \n\t\r [ 1 , {\"a\" : \"\\u00e9\"} ] \r\t\n "}
+	var out []c16ArgTextCase
+	for _, f := range []string{"argjson", "jsonargs", "jsonargs-second"} {
+		for _, t := range invalid {
+			if strings.ContainsRune(t, 0) {
+				continue // argv cannot carry NUL
+			}
+			out = append(out, c16ArgTextCase{Text: t, Flag: f})
+		}
+		for _, t := range valid {
+			out = append(out, c16ArgTextCase{Text: t, Valid: true, Flag: f})
 		}
 	}
 	return out
